@@ -191,7 +191,10 @@ class SMUserList(UserList, ABC):
             # it's a list of things
             if isinstance(arg[0], np.ndarray):
                 # possibly a list of numpy arrays
-                self.data = [self._import(x, check=check) for x in arg]
+                data = [self._import(x, check=check) for x in arg]
+                if any(x is None for x in data):
+                    raise ValueError('bad argument to constructor: list contains an invalid value')
+                self.data = data
 
             elif type(arg[0]) == type(self):
                 # possibly a list of objects of same type
